@@ -56,6 +56,8 @@ enum Op {
     VWithdraw { who: usize, recv: usize, a: i128 },
     VRedeem { who: usize, recv: usize, a: i128 },
     Forced { from: usize, to: usize, a: i128 },
+    /// RWA: recover the whole balance of `old` to its registered recovery target `new`
+    Recover { old: usize, new: usize },
 }
 
 #[derive(Clone, Debug, PartialEq, Eq, Hash)]
@@ -131,6 +133,7 @@ impl Tok {
                 ("burn", (u(*from), *a).into_val(e))
             }
             Op::Forced { from, to, a } => ("forced_transfer", (u(*from), u(*to), *a).into_val(e)),
+            Op::Recover { old, new } => ("recover_balance", (u(*old), u(*new)).into_val(e)),
             Op::BurnFrom { s, from, a } => {
                 if vault || self.flavour == Flavour::BlockList || self.flavour == Flavour::Rwa {
                     return None;
@@ -242,6 +245,7 @@ impl World for Tok {
                 let ver = e.register(rwa_wrap::MockVerifier, ());
                 for k in 0..N {
                     call_mocked(&e, &ver, "set_verified", (u[k].clone(), true).into_val(&e)).expect("verify");
+                    call_mocked(&e, &ver, "set_recovery", (u[k].clone(), Some(u[(k + 1) % N].clone())).into_val(&e)).expect("recovery target");
                 }
                 e.register(rwa_wrap::RwaTok, (comp, ver))
             }
@@ -359,6 +363,9 @@ impl World for Tok {
             }
         }
         if self.flavour == Flavour::Rwa {
+            for old in 0..N {
+                v.push(Op::Recover { old, new: (old + 1) % N });
+            }
             for from in 0..N {
                 for to in 0..N {
                     for a in dedup(vec![-1, 0, 1, o.bal[from], o.bal[from].saturating_add(1)]) {
@@ -397,6 +404,7 @@ impl World for Tok {
             Op::VWithdraw { .. } => "vault.withdraw",
             Op::VRedeem { .. } => "vault.redeem",
             Op::Forced { .. } => "rwa.forced_transfer",
+            Op::Recover { .. } => "rwa.recover_balance",
         }
         .to_string()
     }
@@ -431,6 +439,7 @@ impl World for Tok {
         let amount_of = |op: &Op| match op {
             Op::Mint { a, .. } | Op::Transfer { a, .. } | Op::Approve { a, .. } | Op::TransferFrom { a, .. } | Op::Burn { a, .. } | Op::BurnFrom { a, .. } => *a,
             Op::VDeposit { a, .. } | Op::VMint { a, .. } | Op::VWithdraw { a, .. } | Op::VRedeem { a, .. } | Op::Forced { a, .. } => *a,
+            Op::Recover { .. } => 0,
         };
         ensure!(amount_of(op) >= 0, "negative-amount-accepted", "{:?} succeeded with a negative amount", op);
         let evs = self.fold(i, raw, &mut m.ledger)?;
@@ -453,6 +462,14 @@ impl World for Tok {
             }
             Op::Approve { .. } => {
                 ensure!(evs.is_empty(), "events", "approve emitted balance events {:?}", evs);
+            }
+            Op::Recover { old, new } => {
+                // the whole balance moves; announced by exactly one transfer event (none if there was nothing to move)
+                let b = pre.bal[*old];
+                expect[*old] -= b;
+                expect[*new] += b;
+                let want = if b > 0 { vec![("transfer".to_string(), Some(*old), Some(*new), b)] } else { vec![] };
+                ensure!(evs == want, "events", "{:?} (balance {}) emitted {:?}", op, b, evs);
             }
             Op::VDeposit { recv, .. } | Op::VMint { recv, .. } => vault_move = Some((None, Some(*recv))),
             Op::VWithdraw { who, .. } | Op::VRedeem { who, .. } => vault_move = Some((Some(*who), None)),
@@ -525,7 +542,7 @@ fn main() {
             }
             if let Some(rep) = r.report() {
                 rep.require(
-                    &["mint", "transfer", "approve", "transfer_from", "burn", "burn_from", "vault.deposit", "vault.mint", "vault.withdraw", "vault.redeem", "rwa.forced_transfer"],
+                    &["mint", "transfer", "approve", "transfer_from", "burn", "burn_from", "vault.deposit", "vault.mint", "vault.withdraw", "vault.redeem", "rwa.forced_transfer", "rwa.recover_balance"],
                     &["mint", "transfer", "approve", "transfer_from", "burn", "burn_from", "vault.deposit", "vault.withdraw", "vault.redeem"],
                 );
             }
